@@ -1,13 +1,95 @@
 package main
 
 import (
+	"bytes"
 	"fmt"
+	"reflect"
 
 	"github.com/brocaar/lorawan"
 	"verifharness/internal/cases"
 	"verifharness/internal/cq"
 	"verifharness/internal/framefmt"
 )
+
+// The encoders are compared with the layout specification in Coq (CFrameEnc / CFhdrEnc). The decoders
+// are tied to it here: bytes the specification prescribes for a value must decode to that value
+// again, into a new receiver and into one that was used for other frames before.
+var (
+	usedFHDR lorawan.FHDR
+	usedJA   lorawan.JoinAcceptPayload
+	usedJR   lorawan.JoinRequestPayload
+	usedRJ02 lorawan.RejoinRequestType02Payload
+	usedRJ1  lorawan.RejoinRequestType1Payload
+)
+
+func decFail(s *cases.Set, what, t string, b []byte, detail string) {
+	s.Fail(cases.GoFail{Key: "frame-dec:" + what + ":" + t, What: what + ": " + detail,
+		Replay: map[string]interface{}{"value": t, "bytes": fmt.Sprintf("%x", b)}})
+}
+
+func fhdrDec(s *cases.Set, h lorawan.FHDR, up bool, t string, b []byte) {
+	defer func() {
+		if r := recover(); r != nil {
+			decFail(s, "FHDR.UnmarshalBinary", t, b, fmt.Sprintf("panics: %v", r))
+		}
+	}()
+	var fresh lorawan.FHDR
+	e1 := fresh.UnmarshalBinary(up, append([]byte{}, b...))
+	e2 := usedFHDR.UnmarshalBinary(up, append([]byte{}, b...))
+	if e1 != nil || e2 != nil {
+		decFail(s, "FHDR.UnmarshalBinary", t, b, "rejects the bytes the encoder produced")
+		return
+	}
+	if !reflect.DeepEqual(fresh, usedFHDR) {
+		decFail(s, "FHDR.UnmarshalBinary", t, b, "a used receiver decodes to "+framefmt.FHDR(usedFHDR, int(b[4]&0x0f))+", a new one to "+framefmt.FHDR(fresh, int(b[4]&0x0f)))
+	}
+	if fresh.DevAddr != h.DevAddr || fresh.FCnt != h.FCnt&0xffff ||
+		fresh.FCtrl.ADR != h.FCtrl.ADR || fresh.FCtrl.ADRACKReq != h.FCtrl.ADRACKReq || fresh.FCtrl.ACK != h.FCtrl.ACK ||
+		(fresh.FCtrl.FPending || fresh.FCtrl.ClassB) != (h.FCtrl.FPending || h.FCtrl.ClassB) { // FPending and ClassB are one bit
+		decFail(s, "FHDR.UnmarshalBinary", t, b, "decodes to other field values: "+framefmt.FHDR(fresh, int(b[4]&0x0f)))
+	}
+	if re, err := fresh.MarshalBinary(); err != nil || !bytes.Equal(re, b) {
+		decFail(s, "FHDR.UnmarshalBinary", t, b, fmt.Sprintf("the decoded header encodes to %x", re))
+	}
+}
+
+func payloadDec(s *cases.Set, p lorawan.Payload, t string, b []byte) {
+	defer func() {
+		if r := recover(); r != nil {
+			decFail(s, "payload decoder", t, b, fmt.Sprintf("panics: %v", r))
+		}
+	}()
+	var fresh, used lorawan.Payload
+	switch p.(type) {
+	case *lorawan.JoinAcceptPayload:
+		fresh, used = &lorawan.JoinAcceptPayload{}, &usedJA
+	case *lorawan.JoinRequestPayload:
+		fresh, used = &lorawan.JoinRequestPayload{}, &usedJR
+	case *lorawan.RejoinRequestType02Payload:
+		fresh, used = &lorawan.RejoinRequestType02Payload{}, &usedRJ02
+	case *lorawan.RejoinRequestType1Payload:
+		fresh, used = &lorawan.RejoinRequestType1Payload{}, &usedRJ1
+	default:
+		return
+	}
+	e1 := fresh.UnmarshalBinary(false, append([]byte{}, b...))
+	e2 := used.UnmarshalBinary(false, append([]byte{}, b...))
+	if e1 != nil || e2 != nil {
+		decFail(s, "payload decoder", t, b, "rejects the bytes the encoder produced")
+		return
+	}
+	if tf, tu := framefmt.Payload(fresh, 0), framefmt.Payload(used, 0); tf != tu {
+		decFail(s, "payload decoder", t, b, "a used receiver decodes to "+tu+", a new one to "+tf)
+	}
+	if re, err := fresh.MarshalBinary(); err != nil || !bytes.Equal(re, b) {
+		decFail(s, "payload decoder", t, b, fmt.Sprintf("the decoded payload encodes to %x", re))
+	} else if ja, ok := p.(*lorawan.JoinAcceptPayload); ok && ja.CFList != nil {
+		// trailing all-zero masks are not representable (C01-1): compare what the wire can carry
+		return
+	} else if tf := framefmt.Payload(fresh, 0); tf != t {
+		decFail(s, "payload decoder", t, b, "decodes to "+tf)
+	}
+}
 
 func payloadEnc(s *cases.Set, p lorawan.Payload, kind string) {
 	t := framefmt.Payload(p, 0)
@@ -20,6 +102,7 @@ func payloadEnc(s *cases.Set, p lorawan.Payload, kind string) {
 		}()
 		if b, err := p.MarshalBinary(); err == nil {
 			o = cq.Ok(cq.Bytes(b))
+			payloadDec(s, p, t, b)
 		}
 	}()
 	s.Add(cases.Case{Term: fmt.Sprintf("CFrameEnc %s %s", t, o), Key: "frame-enc:" + t, Kind: kind, Nontrivial: true,
@@ -73,6 +156,7 @@ func frameCases(s *cases.Set, r *cq.RNG, thorough bool) {
 			}()
 			if b, err := h.MarshalBinary(); err == nil {
 				o = cq.Ok(cq.Bytes(b))
+				fhdrDec(s, h, true, t, b)
 			}
 		}()
 		s.Add(cases.Case{Term: fmt.Sprintf("CFhdrEnc %s %s", t, o), Key: "fhdr-enc:" + t, Kind: kind, Nontrivial: true,
